@@ -126,7 +126,7 @@ func doReplay(path string, streams map[string]*hx.Stream, model string) int {
 		return 2
 	}
 	rep, err := hx.Run(&hx.Stream{Name: s.Name, Gen: func(*hx.G, string) []hx.M { return nil }, Exec: s.Exec, Canon: s.Canon,
-		Oracle: s.Oracle, OpProps: s.OpProps, Reps: s.Reps, NoModel: s.NoModel}, hx.NewG(1), "quick", 1, model, []hx.M{c.Op}, "")
+		Oracle: s.Oracle, OpProps: s.OpProps, Reps: s.Reps, NoModel: s.NoModel, Timeout: s.Timeout, Enrich: s.Enrich}, hx.NewG(1), "quick", 1, model, []hx.M{c.Op}, "")
 	if err != nil {
 		fmt.Fprintln(os.Stderr, err)
 		return 2
